@@ -521,6 +521,14 @@ func (e *SpecEnv) call(x *Expr) SV {
 		key := map[string]string{"mem8": "uint8", "memptr": "ptr", "mem32": "uint32", "mem64": "uint64", "memi32": "int32"}[x.Name]
 		h := sh.cur("mem."+key, "(Array Int Int)")
 		return SV{V: IntV(fmt.Sprintf("(select %s %s)", h, a.V.T)), T: tInt}
+	case "cell":
+		// cell(x): address of the cell of a captured (address-taken) variable x
+		if id := x.Args[0]; id.Op == "ident" {
+			if v, ok := e.vars[id.Name]; ok && v.Deref != nil {
+				return SV{V: sh.toScalar(v.V), T: tRef}
+			}
+		}
+		specFail("cell(x): x is not a captured variable")
 	case "brk":
 		return SV{V: IntV(fmt.Sprintf("(select %s 0)", sh.cur("$brk", "(Array Int Int)"))), T: tInt}
 	case "memheap8":
